@@ -44,6 +44,33 @@ def run_job(job):
         return run_insn(job)
     if job.get("op") == "names":
         return {"id": job["id"], "names": list(behaviors().keys())}
+    if job.get("op") == "parse_single":
+        # the corpus path: Parser.parse_single builds its OWN Lark object for every instruction
+        res = {"id": job["id"]}
+        try:
+            import rzilcompiler.Parser as PM
+            from rzilcompiler.Configuration import Conf, InputFile
+            global _grammar
+            if "_grammar" not in globals():
+                with open(Conf.get_path(InputFile.GRAMMAR, "Hexagon")) as f:
+                    _grammar = "".join(f.readlines())
+            code = job.get("code")
+            parts = [code] if code is not None else behaviors()[job["name"]]
+            with contextlib.redirect_stdout(io.StringIO()):
+                p = PM.parse_single(PM.InsnParsingBundle(_grammar, job.get("name", "T_insn"), parts))[job.get("name", "T_insn")]
+            if p.exception:
+                res.update(ok=False, exc=p.exception.name, stage="parse", ntrees=len(p.asts))
+            else:
+                res.update(ok=True, tree="\n".join(str(t) for t in p.asts))
+                with contextlib.redirect_stdout(io.StringIO()):
+                    c = compiler("READ_STATEMENTS")
+                try:
+                    res["tree_reused_parser"] = "\n".join(str(c.parser.parse(b)) for b in parts)
+                except Exception as e:
+                    res["tree_reused_parser"] = "EXC " + type(e).__name__
+        except Exception as e:
+            res.update(ok=False, exc="HARNESS:" + type(e).__name__, msg=traceback.format_exc()[-400:], stage="harness")
+        return res
 
     res = {"id": job["id"]}
     try:
